@@ -322,8 +322,13 @@ class Paraxial:
                 raise ValueError('Field type cannot be "object_height" for an '
                                  'object at infinity.')
 
-            y = -np.tan(np.radians(field_y)) * EPL
-            z = self.optic.surface_group.positions[1]
+            # start in front of both the first surface and the entrance
+            # pupil, so that the launch slope (y1 - y0) / (EPL - z0) is
+            # defined wherever the pupil lies
+            z1 = self.optic.surface_group.positions[1]
+            dist = np.abs(EPL - z1) + 10
+            y = -np.tan(np.radians(field_y)) * dist
+            z = EPL - dist
 
             y0 = y1 + y
             z0 = np.ones_like(y1) * z
